@@ -128,6 +128,11 @@ def _call(o, m, *a, **k):
         if t is not None:
             return t('call', o, m, a, k)
         raise core.PathCut('unsupported: .%s() on symbolic text' % m)
+    if m == 'format' and isinstance(o, builtins.str) and any(isinstance(x, core.SymReal) for x in a):
+        t = TEXT_HOOK[0]
+        if t is not None:
+            return t('call', o, m, a, k)
+        raise core.PathCut('unsupported: str.format of a symbolic value')
     return getattr(o, m)(*a, **k)
 
 
